@@ -68,6 +68,25 @@ b("b17_is_terminated_acquire", "is_terminated loads with Acquire",
 b("b18_len_observers_restructured", "is_full / is_empty written through len()",
   [("src/lib.rs", "            let internal = acquire_internal(&self.internal);\n            internal.capacity == internal.queue.len()", "            let internal = acquire_internal(&self.internal);\n            let (c, l) = (internal.capacity, internal.queue.len());\n            drop(internal);\n            c == l", 1)])
 
+# --- variations suggested by an independent audit of the oracles (each made one of the checks raise a false alarm
+#     before the oracle was corrected; kept so that it cannot come back)
+b("audit_1_wait_timeout_spin_256", "the timed wait spins 256 times before its first clock read, like the untimed wait",
+  [("src/signal.rs", "        if get_parallelism() > 1 {\n            #[cfg(kanal_verif)]\n            let mut verif_knob = crate::verif::rt::SpinKnob::new(1);\n            for _ in 0..32 {",
+    "        if get_parallelism() > 1 {\n            #[cfg(kanal_verif)]\n            let mut verif_knob = crate::verif::rt::SpinKnob::new(1);\n            for _ in 0..256 {", 1)])
+b("audit_2_released_future_reports_disconnect", "a pending future released by a disconnect reports the accurate error variant (ReceiveClosed / SendClosed) instead of Closed",
+  [("src/future.rs", "                        Poll::Ready(Err(SendError::Closed))\n                    }\n                }\n                Poll::Pending => {",
+    "                        Poll::Ready(Err(if acquire_internal(this.internal).send_count != 0 { SendError::ReceiveClosed } else { SendError::Closed }))\n                    }\n                }\n                Poll::Pending => {", 1),
+   ("src/future.rs", "                            Poll::Ready(Err(ReceiveError::Closed))\n                        }\n                    }\n                    Poll::Pending => {",
+    "                            Poll::Ready(Err(if acquire_internal(this.internal).recv_count != 0 { ReceiveError::SendClosed } else { ReceiveError::Closed }))\n                        }\n                    }\n                    Poll::Pending => {", 1)])
+b("audit_4_panic_wording", "the documented panics use another wording",
+  [("src/future.rs", 'panic!("polled after result is already returned")', 'panic!("future polled again after it completed")', 2)])
+b("audit_6_buffer_discarded_with_last_receiver", "the buffered values are destroyed as soon as the last receiver is gone (nobody can receive them any more)",
+  [("src/lib.rs", "            if internal.recv_count == 0 && internal.send_count != 0 {\n                internal.terminate_signals();\n            }",
+    "            if internal.recv_count == 0 && internal.send_count != 0 {\n                internal.terminate_signals();\n                internal.queue.clear();\n            }", 2)])
+b("audit_8_try_lock_retries", "the non-blocking acquisition retries a bounded number of times (100) before giving up",
+  [("src/internal.rs", "    #[cfg(not(feature = \"std-mutex\"))]\n    return internal.try_lock();",
+    "    #[cfg(not(feature = \"std-mutex\"))]\n    {\n        for _ in 0..100 {\n            if let Some(g) = internal.try_lock() {\n                return Some(g);\n            }\n            std::hint::spin_loop();\n        }\n        return None;\n    }", 1)])
+
 meta = {}
 for name, why, edits in B:
     sh("git", "-C", SCR, "checkout", "-q", "--", ".")
@@ -89,5 +108,7 @@ for name, why, edits in B:
     open(os.path.join(OUT, name + ".diff"), "w").write(d)
     meta[name] = {"why_behaviour_preserving": why}
     print("ok", name)
-json.dump(meta, open(os.path.join(OUT, "benign.json"), "w"), indent=1)
+old = json.load(open(os.path.join(OUT, "benign.json"))) if os.path.exists(os.path.join(OUT, "benign.json")) else {}
+old.update(meta)
+json.dump(old, open(os.path.join(OUT, "benign.json"), "w"), indent=1)
 shutil.rmtree(SCR, ignore_errors=True)
